@@ -307,12 +307,51 @@ def _d5(chk, fb, fns):
     chk.floor("D5", "objective evaluations preceded by a setValue on the same list", n_eval, 22)
 
 
+def _d6(chk, fb, fns):
+    """evaluation accounting: the evaluations spent by a nested optimiser are charged to the caller's counter once per run of
+    the nested optimiser (same loop iteration), and the counts returned by the line-search helpers are added, not dropped"""
+    n = 0
+    for f in fns:
+        cfg = f.cfg
+        adds = [a for a in f.all_nodes() if a["k"] == "CompoundAssignOperator" and a["op"] == "+=" and render(kids(a)[0]).replace("this->", "") in ("nbEval_",)]
+        rets = [r for r in walk(f.body) if r["k"] == "ReturnStmt" and kids(r)]
+        for c in f.calls():
+            nm = c["callee"]["name"]
+            if nm == "optimize" and "obj" in c and strip(f.obj(c))["k"] != "CXXThisExpr" and c["callee"].get("inrepo"):
+                o = render(f.obj(c))
+                n += 1
+                lp = f.enclosing(c, ("ForStmt", "WhileStmt", "DoStmt", "CXXForRangeStmt"))
+                users = [a for a in adds if ("%s.getNumberOfEvaluations()" % o) in render(kids(a)[1]) or ("%s->getNumberOfEvaluations()" % o) in render(kids(a)[1])]
+                users += [r for r in rets if ("%s.getNumberOfEvaluations()" % o) in render(kids(r)[0])]
+                good = [a for a in users if f.enclosing(a, ("ForStmt", "WhileStmt", "DoStmt", "CXXForRangeStmt")) is lp and e1.before_in_function(cfg, c, a)]
+                construct = "nested-count:%s.optimize()" % o
+                if good:
+                    chk.proved("D6", f.key, construct, f.loc(c), "evaluations of %s are charged after each run (%s)" % (o, render(good[0])[:60]))
+                elif users:
+                    chk.refuted("D6", f.key, construct, f.loc(c), "%s.optimize() runs inside a loop but its evaluation count is added to nbEval_ outside that loop (line %s): only the last run is charged, the budget is overshot by the number of iterations" % (
+                        o, users[0].get("l")), witness={"input": "a small evaluation budget and >= 2 parameters"})
+                else:
+                    chk.refuted("D6", f.key, construct, f.loc(c), "the evaluations spent by %s.optimize() are never added to nbEval_: the budget test does not see them" % o, witness={"input": "a small evaluation budget"})
+            if nm in ("lineMinimization", "lineSearch") and c["callee"].get("inrepo") and (c["callee"].get("ret") or "").startswith("unsigned"):
+                n += 1
+                par = f.parent.get(c["id"])
+                while par is not None and par["k"] in ("ImplicitCastExpr", "ParenExpr", "ExprWithCleanups", "MaterializeTemporaryExpr"):
+                    par = f.parent.get(par["id"])
+                construct = "helper-count:" + nm
+                if par is not None and par in adds:
+                    chk.proved("D6", f.key, construct, f.loc(c), "nbEval_ += %s(...)" % nm)
+                else:
+                    chk.refuted("D6", f.key, construct, f.loc(c), "the evaluation count returned by %s is not added to nbEval_: the budget test does not see the line search's evaluations" % nm, witness={"input": "a small evaluation budget"})
+    chk.floor("D6", "nested optimiser runs / line-search helper calls", n, 8)
+
+
 def run(chk, fb, tier):
     chk.rule("D1", "a loop from which doStep()/step() of the same object is reachable has a condition reading nbEval_ and nbEvalMax_; optimize() overriders delegate to the capped loop")
     chk.rule("D2", "init: parameters_ = params, then autoParameter()/ignoreConstraints() under the policy test, then doInit; policy loops cover 0..size; copies re-apply; bracketing/line search get getParameters()")
     chk.rule("D3", "doStep with a backup of the objective's parameters: every 'return currentValue_' reachable after a trial f(x) is preceded by setParameters(backup) after that trial")
     chk.rule("D4", "no feasible state-preserving cycle in any loop of the optimiser units")
     chk.rule("D5", "evaluation-point freshness: between P[0].setValue(x) and the next f(P), no variable that x was computed from is written (typestate over the flow graph, all paths)")
+    chk.rule("D6", "evaluation accounting: a nested optimiser's count is added to nbEval_ after each run, in the same loop iteration; counts returned by lineMinimization/lineSearch are added")
     fns = _fns(fb)
     chk.floor("D1", "functions in the optimiser units", len(fns), 100)
     _d1(chk, fb, fns)
@@ -320,5 +359,6 @@ def run(chk, fb, tier):
     _d3(chk, fb, fns)
     _d4(chk, fb, fns)
     _d5(chk, fb, fns)
+    _d6(chk, fb, fns)
     chk.assume("nested optimiser objects (line search, meta-optimiser components) run their own capped optimize() loop")
     chk.assume("outward bracketing loops terminate for objectives bounded below (value-dependent, not decided)")
